@@ -144,7 +144,7 @@ def lit_bool(e):
 def lit_str(e):
     e = strip(e)
     if e and e.get('k') == 'Lit' and e['v'].startswith('Str('):
-        m = re.match(r'^Str\("(.*)", \w+\)$', e['v'], re.S)
+        m = re.match(r'^Str\("(.*)", (?:\w+|Raw\(\d+\))\)$', e['v'], re.S)
         if m:
             return _unescape(m.group(1))
     return None
